@@ -12,7 +12,8 @@ static int pick(void){ unsigned v=in_range(0,3); return v==0?HTP_OK: v==1?HTP_DE
 static int cb_reqc(htp_tx_t *t){ n_reqc++; seq_reqc=++seq; assert(t->request_progress==HTP_REQUEST_COMPLETE); return rc_reqc; }
 static int cb_resc(htp_tx_t *t){ n_resc++; seq_resc=++seq; assert(t->response_progress==HTP_RESPONSE_COMPLETE); return rc_resc; }
 static int cb_txc(htp_tx_t *t){ n_txc++; seq_txc=++seq; assert(t->request_progress==HTP_REQUEST_COMPLETE && t->response_progress==HTP_RESPONSE_COMPLETE); return rc_txc; }
-static int cb_reqbody(htp_tx_data_t *d){ if(d->data==NULL){ n_reqbody_eob++; seq_eob_req=++seq; assert(d->len==0); } else n_reqbody++; return HTP_OK; }
+static int rc_body;
+static int cb_reqbody(htp_tx_data_t *d){ if(d->data==NULL){ n_reqbody_eob++; seq_eob_req=++seq; assert(d->len==0); return rc_body; } else n_reqbody++; return HTP_OK; }
 static int cb_resbody(htp_tx_data_t *d){ if(d->data==NULL){ n_resbody_eob++; seq_eob_res=++seq; } else n_resbody++; return HTP_OK; }
 void harness(void){
     htp_cfg_t *cfg=calloc(1,sizeof(htp_cfg_t)); __CPROVER_assume(cfg);
@@ -31,7 +32,7 @@ void harness(void){
     unsigned ist=in_range(HTP_STREAM_NEW,HTP_STREAM_DATA); c->in_status=ist; c->out_status=HTP_STREAM_DATA;
     unsigned yield=in_bool(); c->out_data_other_at_tx_end=yield;
     c->in_state=htp_connp_REQ_CONNECT_WAIT_RESPONSE; c->out_state=htp_connp_RES_FINALIZE;
-    rc_reqc=pick(); rc_resc=pick(); rc_txc=pick();
+    rc_reqc=pick(); rc_resc=pick(); rc_txc=pick(); rc_body=(FUNC==2)?pick():HTP_OK;
 #if FUNC==1   /* htp_tx_state_response_complete_ex */
     unsigned hybrid=in_bool();
     htp_status_t rc=htp_tx_state_response_complete_ex(tx,(int)hybrid);
@@ -51,13 +52,19 @@ void harness(void){
 #elif FUNC==2 /* htp_tx_state_request_complete: always called for the request side's current transaction */
     __CPROVER_assume(who==0);
     htp_status_t rc=htp_tx_state_request_complete(tx);
-    assert(n_reqc==(reqp!=HTP_REQUEST_COMPLETE?1u:0u));
     int hasbody=(rtc==HTP_CODING_IDENTITY||rtc==HTP_CODING_CHUNKED);
-    if(reqp!=HTP_REQUEST_COMPLETE && hasbody){ assert(n_reqbody_eob==1 && seq_eob_req<seq_reqc); } else assert(n_reqbody_eob==0);
-    int hookfail=(reqp!=HTP_REQUEST_COMPLETE && rc_reqc!=HTP_OK && rc_reqc!=HTP_DECLINED);
-    if(hookfail){ assert(rc==rc_reqc && n_txc==0); }
-    else { assert(rc==HTP_OK && n_txc==((resp==HTP_RESPONSE_COMPLETE)?1u:0u) && c->in_tx==NULL && c->in_state==htp_connp_REQ_IDLE); }
-    VERIF_COVER(n_txc==1 && n_reqc==1, "request completes the transaction");
+    int flushfail=(reqp!=HTP_REQUEST_COMPLETE && hasbody && rc_body!=HTP_OK && rc_body!=HTP_DECLINED);     /* the end-of-body call failed */
+    if(flushfail){
+        /* a request is only ever marked complete when its REQUEST_COMPLETE callback has been delivered (otherwise TRANSACTION_COMPLETE could follow without it) */
+        assert(rc!=HTP_OK && n_reqc==0 && n_txc==0 && n_reqbody_eob==1); assert(tx->request_progress!=HTP_REQUEST_COMPLETE);
+    } else {
+        assert(n_reqc==(reqp!=HTP_REQUEST_COMPLETE?1u:0u));
+        if(reqp!=HTP_REQUEST_COMPLETE && hasbody){ assert(n_reqbody_eob==1 && seq_eob_req<seq_reqc); } else assert(n_reqbody_eob==0);
+        int hookfail=(reqp!=HTP_REQUEST_COMPLETE && rc_reqc!=HTP_OK && rc_reqc!=HTP_DECLINED);
+        if(hookfail){ assert(rc==rc_reqc && n_txc==0); }
+        else { assert(rc==HTP_OK && n_txc==((resp==HTP_RESPONSE_COMPLETE)?1u:0u) && c->in_tx==NULL && c->in_state==htp_connp_REQ_IDLE); }
+    }
+    VERIF_COVER(n_txc==1 && n_reqc==1, "request completes the transaction"); VERIF_COVER(flushfail, "end-of-body flush fails");
 #else         /* htp_tx_finalize / htp_tx_destroy */
     htp_status_t rc=htp_tx_finalize(tx);
     assert(n_txc==((reqp==HTP_REQUEST_COMPLETE&&resp==HTP_RESPONSE_COMPLETE)?1u:0u));
